@@ -36,6 +36,10 @@ ARCCOS = z3.Function("arccos", z3.RealSort(), z3.RealSort())
 EXP = z3.Function("exp", z3.RealSort(), z3.RealSort())
 
 
+from .types import NodeSort as _NodeSort
+NODE_TRUTHY = z3.Function("node_truthy", _NodeSort, z3.BoolSort())
+
+
 class Facts:
     """side facts (definitional axioms of uninterpreted terms) accumulated during evaluation"""
 
@@ -320,6 +324,9 @@ def truth(v):
         raise Unsupported("truth value of an array with more than one element")
     if isinstance(v, Rec):
         return True
+    if is_sym(v) and str(v.sort()) == "Node":
+        # truthiness of an arbitrary hashable node key (0 and '' are falsy in Python): uninterpreted
+        return NODE_TRUTHY(v)
     raise Unsupported(f"truthiness of {type(v).__name__}")
 
 
